@@ -275,3 +275,17 @@ CHECKS["C13"]["text"] += " Between two calls the caller may give the same tensor
 CHECKS["C17"]["text"] += (" Rank-0 graphs are run about 10^6 times per recording from 16 goroutines (a temporary tensor reclaimed by the garbage collector "
                           "while its memory is read shows up there). A deviation of a free-running stage is a violation only if it recurs in one of up to "
                           "three further recordings (the schedule cannot be replayed); race-detector reports and runtime faults are conclusive at once.")
+
+# ---- round 11
+for _pid in ("C03", "C04", "C05", "C06", "C07", "C08", "C09", "C10", "C11"):
+    CHECKS[_pid]["text"] += (" The spare-capacity mode uses Clone()s of the operands; an operator is also initialised (twice) from a node whose "
+                             "list-valued attributes share one array, and the node must keep its values.")
+CHECKS["C09"]["text"] += (" Cases marked `repeat` (ties between +0 and -0 under several reduced axes) are executed 24 times and must return the same "
+                          "bits every time.")
+CHECKS["C10"]["text"] += (" float64 tensors are also compared at float64 precision against RefTables64 (correctly rounded values from mpmath at 300 "
+                          "bits, 60 arguments per function), within 256 units in the last place.")
+CHECKS["C17"]["text"] += (" Runs that never return are verdicts: the recorder's watchdog (no Run returned for 120 s) and a return deadline per Run in "
+                          "the schedule executor report a deadlock as a violation.")
+CHECKS["C18"]["text"] += (" A model inside a zip entry with an honest or forged size header (up to 2^64-1) is loaded with NewModelFromZipFile; an abort "
+                          "of the process by the Go runtime while the library is executing counts as a violation.")
+CHECKS["C13"]["text"] += " Graph outputs may carry annotations the graph does not compute: Run enforces the input signature only."
